@@ -231,6 +231,72 @@ theorem litNoFill_of_prune (shape : List Nat) (es : List (Idx × Int)) (fill : I
   simp only [Bool.false_eq_true, if_false, if_true] at he ⊢
   exact C06.nofill_prune _ _ e he
 
+mutual
+/-- every literal input is built with `prune=True` -/
+def AllPruned : Expr → Prop
+  | .lit _ _ _ prune => prune = true
+  | .ew1 _ a => AllPruned a
+  | .ew2 _ a b => AllPruned a ∧ AllPruned b
+  | .broadcastTo a _ => AllPruned a
+  | .transpose a _ => AllPruned a
+  | .reshape a _ => AllPruned a
+  | .flip a _ => AllPruned a
+  | .roll a _ _ => AllPruned a
+  | .squeeze a _ => AllPruned a
+  | .expandDims a _ => AllPruned a
+  | .getitem a _ => AllPruned a
+  | .reduce _ a _ => AllPruned a
+  | .concat xs _ => AllPrunedL xs
+  | .stack xs _ => AllPrunedL xs
+  | .triu a _ => AllPruned a
+  | .tril a _ => AllPruned a
+  | .diagonal a _ _ _ => AllPruned a
+  | .viaGcxs a _ => AllPruned a
+  | .viaDok a => AllPruned a
+def AllPrunedL : Exprs → Prop
+  | .one e => AllPruned e
+  | .cons e rest => AllPruned e ∧ AllPrunedL rest
+end
+
+mutual
+theorem leavesNoFill_of_allPruned : ∀ e : Expr, AllPruned e → e.LeavesNoFill
+  | .lit shape es fill prune, h => by
+    rw [AllPruned] at h; rw [Expr.LeavesNoFill, h]; exact litNoFill_of_prune shape es fill
+  | .ew1 _ a, h => by rw [AllPruned] at h; rw [Expr.LeavesNoFill]; exact leavesNoFill_of_allPruned a h
+  | .ew2 _ a b, h => by
+    rw [AllPruned] at h; rw [Expr.LeavesNoFill]
+    exact ⟨leavesNoFill_of_allPruned a h.1, leavesNoFill_of_allPruned b h.2⟩
+  | .broadcastTo a _, h => by rw [AllPruned] at h; rw [Expr.LeavesNoFill]; exact leavesNoFill_of_allPruned a h
+  | .transpose a _, h => by rw [AllPruned] at h; rw [Expr.LeavesNoFill]; exact leavesNoFill_of_allPruned a h
+  | .reshape a _, h => by rw [AllPruned] at h; rw [Expr.LeavesNoFill]; exact leavesNoFill_of_allPruned a h
+  | .flip a _, h => by rw [AllPruned] at h; rw [Expr.LeavesNoFill]; exact leavesNoFill_of_allPruned a h
+  | .roll a _ _, h => by rw [AllPruned] at h; rw [Expr.LeavesNoFill]; exact leavesNoFill_of_allPruned a h
+  | .squeeze a _, h => by rw [AllPruned] at h; rw [Expr.LeavesNoFill]; exact leavesNoFill_of_allPruned a h
+  | .expandDims a _, h => by rw [AllPruned] at h; rw [Expr.LeavesNoFill]; exact leavesNoFill_of_allPruned a h
+  | .getitem a _, h => by rw [AllPruned] at h; rw [Expr.LeavesNoFill]; exact leavesNoFill_of_allPruned a h
+  | .reduce _ a _, h => by rw [AllPruned] at h; rw [Expr.LeavesNoFill]; exact leavesNoFill_of_allPruned a h
+  | .concat xs _, h => by rw [AllPruned] at h; rw [Expr.LeavesNoFill]; exact leavesNoFillL_of_allPruned xs h
+  | .stack xs _, h => by rw [AllPruned] at h; rw [Expr.LeavesNoFill]; exact leavesNoFillL_of_allPruned xs h
+  | .triu a _, h => by rw [AllPruned] at h; rw [Expr.LeavesNoFill]; exact leavesNoFill_of_allPruned a h
+  | .tril a _, h => by rw [AllPruned] at h; rw [Expr.LeavesNoFill]; exact leavesNoFill_of_allPruned a h
+  | .diagonal a _ _ _, h => by rw [AllPruned] at h; rw [Expr.LeavesNoFill]; exact leavesNoFill_of_allPruned a h
+  | .viaGcxs a _, h => by rw [AllPruned] at h; rw [Expr.LeavesNoFill]; exact leavesNoFill_of_allPruned a h
+  | .viaDok a, h => by rw [AllPruned] at h; rw [Expr.LeavesNoFill]; exact leavesNoFill_of_allPruned a h
+theorem leavesNoFillL_of_allPruned : ∀ es : Exprs, AllPrunedL es → es.LeavesNoFill
+  | .one e, h => by rw [AllPrunedL] at h; rw [Exprs.LeavesNoFill]; exact leavesNoFill_of_allPruned e h
+  | .cons e rest, h => by
+    rw [AllPrunedL] at h; rw [Exprs.LeavesNoFill]
+    exact ⟨leavesNoFill_of_allPruned e h.1, leavesNoFillL_of_allPruned rest h.2⟩
+end
+
+/-- **program_canonical_pruned.** With every literal input built with `prune=True` (so that the
+inputs store no fill-valued entry), the full canonical form — in range, sorted without repeats, and
+NO stored element equal to the fill value — holds for the result of every program, unconditionally. -/
+theorem program_canonical_pruned (e : Expr) (x : COO Int) (hp : AllPruned e) (h : evalModel e = .ok x) :
+    x.WF ∧ SortedLin x.shape x.entries ∧ x.NoFill := by
+  obtain ⟨h1, h2, h3⟩ := program_canonical e x h
+  exact ⟨h1, h2, h3 (leavesNoFill_of_allPruned e hp)⟩
+
 /-! ### non-vacuity: concrete programs -/
 
 /-- a literal input with coordinates out of order, a repeated coordinate (`[1,2]`: 7 + -3) and an
